@@ -327,7 +327,7 @@ impl Property for C06 {
     fn cases(&self, tier: Tier) -> usize {
         match tier {
             Tier::Quick => 40_000,
-            Tier::Thorough => 400_000,
+            Tier::Thorough => 2_500_000,
         }
     }
     fn strategy(&self, _tier: Tier) -> BoxedStrategy<C06Case> {
